@@ -8,6 +8,8 @@ MCZones == {[init |-> -5 * H, trans |-> <<[at |-> 7 * H, off |-> -4 * H], [at |-
             [init |-> 14 * H, trans |-> <<[at |-> 10 * H, off |-> -10 * H]>>],                                              \* 24 h repeat
             \* gaps that swallow midnight and begin before it: 23:30 -> 00:30 and 23:00 -> 01:00 (the day before ends early, the next day starts late)
             [init |-> -5 * H, trans |-> <<[at |-> 4 * H + 1800, off |-> -4 * H]>>], [init |-> -5 * H, trans |-> <<[at |-> 4 * H, off |-> -3 * H]>>],
+            \* days of 23 3/4 h and 22 1/2 h (a quarter-hour change at 03:00 local, a 90-minute one): hours-in-day must be a neighbouring integer, arithmetic exact to the minute
+            [init |-> 5 * H + 1800, trans |-> <<[at |-> -3 * H + 1800, off |-> 5 * H + 2700]>>], [init |-> -3 * H, trans |-> <<[at |-> 4 * H, off |-> -H - 1800]>>],
             [init |-> 5 * H + 1800, trans |-> <<>>], [init |-> 0, trans |-> <<>>]}
 Grid(lo, hi, step) == {lo + k * step : k \in 0..((hi - lo) \div step)}
 MCInstants == Grid(-2 * 86400, 3 * 86400, 1800 * 3) \cup Grid(20 * 86400 - 12 * H, 20 * 86400 + 18 * H, 3 * H) \cup {30 * 86400, 31 * 86400 + 5 * H, 59 * 86400 + 7 * H, 60 * 86400}
